@@ -6,7 +6,7 @@ import (
 
 	"pgregory.net/rapid"
 
-	"verif/gen"
+	"verif/rnd"
 )
 
 // Sentence generator: derives token sequences from the grammar of DESIGN §3.1 (every
@@ -20,11 +20,11 @@ type sgen struct {
 	names []string // optional vocabulary override (all Name positions)
 }
 
-func (g *sgen) emit(s ...string)         { g.toks = append(g.toks, s...) }
-func (g *sgen) chance(p int) bool        { return gen.Chance(g.t, p, "c") }
-func (g *sgen) n(lo, hi int) int         { return gen.Intn(g.t, lo, hi, "n") }
-func (g *sgen) pick(xs []string) string  { return xs[gen.Uniform(g.t, len(xs), "p")] }
-func (g *sgen) deeper(p int) bool        { return g.depth < 6 && g.chance(p) }
+func (g *sgen) emit(s ...string)        { g.toks = append(g.toks, s...) }
+func (g *sgen) chance(p int) bool       { return rnd.Chance(g.t, p, "c") }
+func (g *sgen) n(lo, hi int) int        { return rnd.Intn(g.t, lo, hi, "n") }
+func (g *sgen) pick(xs []string) string { return xs[rnd.Uniform(g.t, len(xs), "p")] }
+func (g *sgen) deeper(p int) bool       { return g.depth < 6 && g.chance(p) }
 
 var names = []string{"a", "b", "foo", "_x", "A1", "on", "query", "mutation", "subscription", "fragment", "true", "false", "null",
 	"type", "extend", "implements", "enum", "input", "interface", "union", "scalar", "schema", "directive", "__typename", "Int", "String", "T"}
@@ -42,7 +42,7 @@ func (g *sgen) anyName() string {
 	}
 	return g.pick(names)
 }
-func (g *sgen) fragName() string  { // Name but not on
+func (g *sgen) fragName() string { // Name but not on
 	for {
 		n := g.anyName()
 		if n != "on" {
@@ -125,7 +125,7 @@ var floatLits = []string{"0.0", "-0.0", "1.5", "-1.5e3", "1e10", "1E10", "1e+9",
 func (g *sgen) value(isConst bool) {
 	g.depth++
 	defer func() { g.depth-- }()
-	r := gen.Uniform(g.t, 100, "valueKind")
+	r := rnd.Uniform(g.t, 100, "valueKind")
 	switch {
 	case r < 12 && !isConst:
 		g.emit("$", g.anyName())
@@ -196,7 +196,7 @@ func (g *sgen) selectionSet() {
 	defer func() { g.depth-- }()
 	g.emit("{")
 	for i, n := 0, g.n(1, 4); i < n; i++ {
-		r := gen.Uniform(g.t, 100, "selKind")
+		r := rnd.Uniform(g.t, 100, "selKind")
 		switch {
 		case r < 65 || g.depth >= 6:
 			if g.chance(25) {
@@ -314,7 +314,7 @@ func (g *sgen) objectDef() {
 }
 
 func (g *sgen) typeSystemDef() {
-	r := gen.Uniform(g.t, 100, "tsKind")
+	r := rnd.Uniform(g.t, 100, "tsKind")
 	switch {
 	case r < 10:
 		g.emit("schema")
@@ -429,17 +429,17 @@ func isPunct(tok string) bool {
 // multi-byte characters; tight lets adjacent tokens touch where that is lexically safe.
 func Render(t *rapid.T, toks []string, unicode bool) string {
 	var sb strings.Builder
-	mode := gen.Uniform(t, 4, "layoutMode") // 0: single spaces, 1: mixed gaps, 2: tight, 3: mixed+tight
+	mode := rnd.Uniform(t, 4, "layoutMode") // 0: single spaces, 1: mixed gaps, 2: tight, 3: mixed+tight
 	gap := func() string {
 		if mode == 0 || mode == 2 {
 			return " "
 		}
-		if unicode && gen.Chance(t, 15, "ug") {
-			return unicodeGaps[gen.Uniform(t, len(unicodeGaps), "ugi")]
+		if unicode && rnd.Chance(t, 15, "ug") {
+			return unicodeGaps[rnd.Uniform(t, len(unicodeGaps), "ugi")]
 		}
-		return asciiGaps[gen.Uniform(t, len(asciiGaps), "gi")]
+		return asciiGaps[rnd.Uniform(t, len(asciiGaps), "gi")]
 	}
-	if mode != 0 && gen.Chance(t, 20, "leadGap") {
+	if mode != 0 && rnd.Chance(t, 20, "leadGap") {
 		sb.WriteString(gap())
 	}
 	for i, tok := range toks {
@@ -447,13 +447,13 @@ func Render(t *rapid.T, toks []string, unicode bool) string {
 			prev := toks[i-1]
 			canTouch := (isPunct(prev) || isPunct(tok)) && !(strings.HasPrefix(prev, `"`) && strings.HasPrefix(tok, `"`)) &&
 				!(prev == "..." && strings.HasPrefix(tok, ".")) && !(strings.HasSuffix(prev, ".") && tok == "...")
-			if !(canTouch && mode >= 2 && gen.Chance(t, 60, "touch")) {
+			if !(canTouch && mode >= 2 && rnd.Chance(t, 60, "touch")) {
 				sb.WriteString(gap())
 			}
 		}
 		sb.WriteString(tok)
 	}
-	if mode != 0 && gen.Chance(t, 30, "trailGap") {
+	if mode != 0 && rnd.Chance(t, 30, "trailGap") {
 		sb.WriteString(gap())
 	}
 	return sb.String()
@@ -465,16 +465,16 @@ func Mutate(t *rapid.T, toks []string) []string {
 	if len(out) == 0 {
 		return out
 	}
-	i := gen.Uniform(t, len(out), "mutAt")
+	i := rnd.Uniform(t, len(out), "mutAt")
 	alphabet := []string{"!", "$", "(", ")", "...", ":", "=", "@", "[", "]", "{", "|", "}", "&", "a", "on", "1", "1.5", `"s"`, `"""b"""`, "query", "fragment", "type", "true", "null"}
-	switch gen.Uniform(t, 5, "mutKind") {
+	switch rnd.Uniform(t, 5, "mutKind") {
 	case 0: // delete
 		out = append(out[:i], out[i+1:]...)
 	case 1: // insert
-		tok := alphabet[gen.Uniform(t, len(alphabet), "mutTok")]
+		tok := alphabet[rnd.Uniform(t, len(alphabet), "mutTok")]
 		out = append(out[:i], append([]string{tok}, out[i:]...)...)
 	case 2: // replace
-		out[i] = alphabet[gen.Uniform(t, len(alphabet), "mutTok")]
+		out[i] = alphabet[rnd.Uniform(t, len(alphabet), "mutTok")]
 	case 3: // swap with neighbour
 		if i+1 < len(out) {
 			out[i], out[i+1] = out[i+1], out[i]
